@@ -31,7 +31,7 @@
    hold is held with exactly the believed contents, same for global schema, system config,
    and the believed LAST_STATE. *)
 From Coq Require Import List NArith Bool.
-From Verif.C17 Require Import Model Proofs.
+From Verif.C17 Require Import Model Proofs NoReturn.
 Import ListNotations.
 Local Open Scope N_scope.
 
@@ -91,6 +91,31 @@ Theorem C17_keys_sound : forall (fal : N -> bool) (cont : N -> N) h w b r db,
 Proof. exact p_keys_sound. Qed.
 Print Assumptions C17_keys_sound.
 
+(* EVERY fault placement, status-2 replies included: if no request supplies None and the caller
+   never returns to an object it has left ([no_return h], executable, Model.v: per database and
+   field, and for the global schema / system config, the sequence of supplied identities -
+   init args of worker starts and compile_in_tx root schemas included - never comes back to an
+   identity after a different one), the compiler is entered with exactly the values supplied.
+   (So the known finding C17-status2-unacked can only surface as a stale argument when a
+   caller re-supplies an earlier object, or through the cached transaction state.) *)
+Theorem C17_noreturn_args_exact : forall (fal : N -> bool) (cont : N -> N) h
+    w m db us gs rc dc sc f x a b c d e re,
+  forallb nn_req h = true -> no_return h = true ->
+  In (OCompile w m db us gs rc dc sc f, OutC x (ObsC a b c d e) re) (run true true fal cont sys0 h) ->
+  a = cont us /\ b = cont gs /\ c = cont rc /\ d = cont dc /\ e = cont sc.
+Proof. exact p_noreturn_args_exact. Qed.
+Print Assumptions C17_noreturn_args_exact.
+
+(* ... and compile_in_tx, whenever the state is transmitted (no marker), runs on the supplied
+   state with the supplied root user schema *)
+Theorem C17_noreturn_tx_exact : forall (fal : N -> bool) (cont : N -> N) h
+    avail db us ps f w sid root re,
+  forallb nn_req h = true -> no_return h = true ->
+  In (OTx avail db us ps f, OutT w false (ObsT sid root) re) (run true true fal cont sys0 h) ->
+  sid = ps /\ root = cont us.
+Proof. exact p_noreturn_tx_exact. Qed.
+Print Assumptions C17_noreturn_tx_exact.
+
 (* ------------------------------------------------------------------ *)
 (* the hypotheses are satisfiable on non-trivial histories             *)
 
@@ -120,3 +145,22 @@ Example C17_clean_nonvacuous :
    OutC (mkWire None None None (Some 100) None) (ObsC 6 7 4 50 8) (ROk 0);
    OutC (mkWire None None None (Some 20) None) (ObsC 6 7 4 10 8) (ROk 0)].
 Proof. split; vm_compute; reflexivity. Qed.
+
+Definition ex_nr : list op :=
+  [ORestart 1 [(1, mkP 2 8 10)] 4 6;
+   OCompile 1 MOther 1 2 4 8 20 6 FReplyLost;        (* worker has config 20, server not told *)
+   OCompile 1 MOther 1 2 4 8 20 6 FNone;             (* same object again: re-sent *)
+   OCompile 1 MOther 1 12 4 8 22 6 FReplyLost;
+   OCompile 1 MOther 1 12 4 8 100 6 (FUnpickle 4);
+   OCompile 1 MOther 1 14 4 8 100 16 FNone].
+
+Example C17_noreturn_nonvacuous :
+  forallb nn_req ex_nr = true /\ no_return ex_nr = true /\ clean_hist ex_nr = false /\
+  map snd (run true true fal0 cont0 sys0 ex_nr) =
+  [OutR true;
+   OutC (mkWire None None None (Some 20) None) (ObsC 1 2 4 10 3) (RErr EReply);
+   OutC (mkWire None None None (Some 20) None) (ObsC 1 2 4 10 3) (ROk 0);
+   OutC (mkWire (Some 12) None None (Some 22) None) (ObsC 6 2 4 11 3) (RErr EReply);
+   OutC (mkWire (Some 12) None None (Some 100) None) (ObsC 6 2 4 50 3) (ROk 0);
+   OutC (mkWire (Some 14) None None None (Some 16)) (ObsC 7 2 4 50 8) (ROk 0)].
+Proof. repeat split; vm_compute; reflexivity. Qed.
